@@ -23,7 +23,7 @@ const PATS: [(&str, &[&str]); 8] = [
 
 const EQUAL_SPELLINGS: [&[&str]; 5] = [
     &["1.0", "1.0.0", "1_0", "1pl0", "1.0nb0", "1.0pl", "1.0_", "1.0."],
-    &["2", "2.0", "2pl", "2.", "2nb0", "02", "2_0"],
+    &["2", "2.0", "2pl", "2.", "2nb0", "02", "2_0", "0000000000000000000002", "2.000000000000000000000"],
     &["1.5rc1", "1.5pre1", "1.5RC1", "1.5Pre1"],
     &["1.0alpha", "1.0ALPHA", "1.0alpha0", "1_0alpha"],
     &["3nb1", "3.0nb1", "3nb01", "3pl0nb1", "3NB1"],
@@ -37,6 +37,11 @@ fn version(r: &mut Rng) -> String {
         }
         2 => format!("{}.{}", r.below(4), r.below(4)),
         3 => gv::v(r),
+        4 if r.chance(1, 3) => {
+            // a digit run padded with leading zeros beyond 18 characters
+            let v = if r.chance(1, 2) { gv::v_safe(r) } else { format!("{}.{}", r.below(4), r.below(4)) };
+            gv::pad_zeros(r, &v)
+        }
         _ => gv::v_safe(r),
     }
 }
@@ -44,10 +49,10 @@ fn version(r: &mut Rng) -> String {
 /// Order of two versions: the reference where it is K1-free, otherwise the
 /// real order observed through a comparison pattern (C01/C03 establish it).
 fn vorder(a: &str, b: &str) -> Result<Ordering, crate::fw::Fail> {
-    if gv::usable(a) && gv::usable(b) && od::k1_free(a, b) {
+    if gv::usable_padded(a) && gv::usable_padded(b) && od::k1_free(a, b) {
         return Ok(od::order(a, b, Weight::Rank));
     }
-    if !gv::usable(a) || !gv::usable(b) {
+    if !gv::usable_padded(a) || !gv::usable_padded(b) {
         return Err("harness: version outside the usable domain".into());
     }
     let gt = Pattern::new(&format!("v>{b}")).map_err(|e| format!("Pattern::new failed: {e}"))?.matches(&format!("v-{a}"));
